@@ -109,8 +109,9 @@ theorem Sem_pushArgs2 : ∀ (l : List (Arg × Bool)) (p : Bool),
     refine Sem_bind_td ih (fun _ => ?_)
     by_cases hbp : b = p
     · -- processed in this pass
-      have hskip : ((p && !b) || (!p && b)) = false := by subst hbp; cases b <;> rfl
-      simp only [hskip, Bool.false_eq_true, if_false, hbp, beq_self_eq_true, if_true]
+      subst hbp
+      have hskip : ((b && !b) || (!b && b)) = false := by cases b <;> rfl
+      simp only [hskip, Bool.false_eq_true, if_false, beq_self_eq_true, if_true]
       refine Sem_bind_td hg (fun _ => ?_)
       refine Sem_needTy_bind fun ty hty => ?_
       rw [hty]
@@ -121,5 +122,281 @@ theorem Sem_pushArgs2 : ∀ (l : List (Arg × Bool)) (p : Bool),
       have hbp' : (b == p) = false := by simpa using hbp
       simp only [hskip, if_true, hbp', Bool.false_eq_true, if_false]
       exact (Sem_pure ()).cast (by omega) (by omega) (by omega)
+
+
+/-! ### the two classification loops decide alike -/
+
+/-- the counters of `push_args`' loop (`gpc`, `fpc`: incremented for every argument of the class)
+    and of the popping loop (`gpp`, `fpp`: incremented only when a register is loaded) -/
+def Eqv (gpc fpc gpp fpp : Int) : Prop := 0 ≤ gpc ∧ 0 ≤ fpc ∧ gpp = min gpc 6 ∧ fpp = min fpc 8
+
+theorem argreg64_ne_rsp : ∀ r ∈ argreg64, r ≠ "%rsp" := by decide
+
+theorem Ret_argreg64 (r : Int) : Ret (argreg argreg64 r) (fun n => n ≠ "%rsp") := by
+  unfold argreg
+  split
+  · exact Ret_fail _
+  · split
+    · rename_i s hs
+      exact Ret_pure (argreg64_ne_rsp s (List.mem_of_getElem? hs))
+    · exact Ret_fail _
+
+theorem Sem_popGp (gp : Int) : Sem (popGp gp) 8 0 (-1) := by
+  unfold popGp
+  exact (Sem_bind_ret (Sem_argreg _ _) (Ret_argreg64 gp) (fun a ha => Sem_pop a ha)).cast
+    (by omega) (by omega) (by omega)
+
+macro_rules
+  | `(tactic| sem_leaf) => `(tactic| first | exact Sem_popGp _ | exact Sem_pushStruct _)
+
+/-- result of a block that ends in `pure v` after actions whose values do not matter -/
+theorem Ret_seq_pure {m : M α} {v : β} {P : β → Prop} (h : P v) : Ret (m >>= fun _ => (pure v : M β)) P :=
+  Ret_bind (Ret_any m) (fun _ _ => Ret_pure h)
+
+theorem gp_class {gpc fpc gpp fpp : Int} {b : Bool} {gpc' fpc' k : Int} (he : Eqv gpc fpc gpp fpp)
+    (hc : (if gpc ≥ GP_MAX then (pure (true, gpc + 1, fpc, 1) : Except String _) else pure (false, gpc + 1, fpc, 0))
+      = .ok (b, gpc', fpc', k)) :
+    (k = if b then 1 else 0) ∧
+    Sem (if gpp < GP_MAX then (do popGp gpp; pure (gpp + 1, fpp)) else (pure (gpp, fpp) : M (Int × Int)))
+      (8 * (if b then 0 else 1)) 0 (-(if b then 0 else 1)) ∧
+    Ret (if gpp < GP_MAX then (do popGp gpp; pure (gpp + 1, fpp)) else (pure (gpp, fpp) : M (Int × Int)))
+      (fun gf => Eqv gpc' fpc' gf.1 gf.2) := by
+  obtain ⟨h1, h2, h3, h4⟩ := he
+  simp only [GP_MAX] at hc ⊢
+  by_cases hg : gpc ≥ 6
+  · simp only [hg, if_true, pure, Except.pure, Except.ok.injEq, Prod.mk.injEq] at hc
+    obtain ⟨rfl, rfl, rfl, rfl⟩ := hc
+    have : ¬ gpp < 6 := by omega
+    simp only [this, if_false, if_true]
+    refine ⟨trivial, ?_, ?_⟩
+    · exact (Sem_pure _).cast (by omega) rfl (by omega)
+    · exact Ret_pure ⟨by omega, h2, by omega, h4⟩
+  · simp only [hg, if_false, pure, Except.pure, Except.ok.injEq, Prod.mk.injEq] at hc
+    obtain ⟨rfl, rfl, rfl, rfl⟩ := hc
+    have : gpp < 6 := by omega
+    simp only [this, if_true, Bool.false_eq_true, if_false]
+    refine ⟨trivial, ?_, ?_⟩
+    · sem
+    · exact Ret_seq_pure ⟨by omega, h2, by omega, h4⟩
+
+theorem fp_class {gpc fpc gpp fpp : Int} {b : Bool} {gpc' fpc' k : Int} (he : Eqv gpc fpc gpp fpp)
+    (hc : (if fpc ≥ FP_MAX then (pure (true, gpc, fpc + 1, 1) : Except String _) else pure (false, gpc, fpc + 1, 0))
+      = .ok (b, gpc', fpc', k)) :
+    (k = if b then 1 else 0) ∧
+    Sem (if fpp < FP_MAX then (do popf fpp.toNat; pure (gpp, fpp + 1)) else (pure (gpp, fpp) : M (Int × Int)))
+      (8 * (if b then 0 else 1)) 0 (-(if b then 0 else 1)) ∧
+    Ret (if fpp < FP_MAX then (do popf fpp.toNat; pure (gpp, fpp + 1)) else (pure (gpp, fpp) : M (Int × Int)))
+      (fun gf => Eqv gpc' fpc' gf.1 gf.2) := by
+  obtain ⟨h1, h2, h3, h4⟩ := he
+  simp only [FP_MAX] at hc ⊢
+  by_cases hg : fpc ≥ 8
+  · simp only [hg, if_true, pure, Except.pure, Except.ok.injEq, Prod.mk.injEq] at hc
+    obtain ⟨rfl, rfl, rfl, rfl⟩ := hc
+    have : ¬ fpp < 8 := by omega
+    simp only [this, if_false, if_true]
+    refine ⟨trivial, ?_, ?_⟩
+    · exact (Sem_pure _).cast (by omega) rfl (by omega)
+    · exact Ret_pure ⟨h1, by omega, h3, by omega⟩
+  · simp only [hg, if_false, pure, Except.pure, Except.ok.injEq, Prod.mk.injEq] at hc
+    obtain ⟨rfl, rfl, rfl, rfl⟩ := hc
+    have : fpp < 8 := by omega
+    simp only [this, if_true, Bool.false_eq_true, if_false]
+    refine ⟨trivial, ?_, ?_⟩
+    · sem
+    · exact Ret_seq_pure ⟨h1, by omega, h3, by omega⟩
+
+
+/-! ### monad laws of `M` (used to normalise the struct arm of `popArg`) -/
+
+theorem M_pure_bind (v : α) (f : α → M β) : ((pure v : M α) >>= f) = f v := by
+  funext s
+  simp only [bind, M.bind, pure, M.pure]
+  cases f v s with
+  | error e => rfl
+  | ok r => obtain ⟨b, s2, l2⟩ := r; simp
+
+theorem M_liftE_ok_bind (v : α) (f : α → M β) : (liftE (.ok v) >>= f) = f v := M_pure_bind v f
+
+theorem M_bind_assoc (m : M α) (f : α → M β) (g : β → M γ) :
+    ((m >>= f) >>= g) = (m >>= fun a => f a >>= g) := by
+  funext s
+  simp only [bind, M.bind]
+  cases m s with
+  | error e => rfl
+  | ok r =>
+    obtain ⟨a, s1, l1⟩ := r
+    simp only
+    cases f a s1 with
+    | error e => rfl
+    | ok r2 =>
+      obtain ⟨b, s2, l2⟩ := r2
+      simp only
+      cases g b s2 with
+      | error e => rfl
+      | ok r3 => obtain ⟨c, s3, l3⟩ := r3; simp [List.append_assoc]
+
+theorem structCls_ok {env : Env} {ty : Ty} {ngp nfp : Int} (h : structClsE env ty = .ok (ngp, nfp)) :
+    ∃ f1, hasFlonum1E env ty = .ok f1 ∧
+      (if ty.size > 8 then
+        ∃ f2, hasFlonum2E env ty = .ok f2 ∧ ngp = (if f1 then 0 else 1) + (if f2 then 0 else 1) ∧
+          nfp = (if f1 then 1 else 0) + (if f2 then 1 else 0)
+       else ngp = (if f1 then 0 else 1) ∧ nfp = (if f1 then 1 else 0)) := by
+  unfold structClsE at h
+  cases h1 : hasFlonum1E env ty with
+  | error e => simp [h1] at h
+  | ok f1 =>
+    refine ⟨f1, rfl, ?_⟩
+    simp only [h1] at h
+    by_cases hs : ty.size > 8
+    · simp only [hs, if_true] at h ⊢
+      cases h2 : hasFlonum2E env ty with
+      | error e => simp [h2] at h
+      | ok f2 =>
+        simp only [h2, Except.ok.injEq, Prod.mk.injEq] at h
+        exact ⟨f2, rfl, h.1.symm, h.2.symm⟩
+    · simp only [hs, if_false, Except.ok.injEq, Prod.mk.injEq] at h ⊢
+      exact ⟨h.1.symm, h.2.symm⟩
+
+theorem fits_eqv {gpc fpc gpp fpp ngp nfp : Int} (he : Eqv gpc fpc gpp fpp) (hn : 0 ≤ ngp) (hf : 0 ≤ nfp) :
+    fitsRegs gpc fpc ngp nfp = fitsRegs gpp fpp ngp nfp := by
+  obtain ⟨h1, h2, h3, h4⟩ := he
+  unfold fitsRegs FP_MAX GP_MAX
+  have e1 : (nfp == 0 || decide (fpc + nfp ≤ 8)) = (nfp == 0 || decide (fpp + nfp ≤ 8)) := by
+    by_cases hz : nfp = 0
+    · simp [hz]
+    · have : (fpc + nfp ≤ 8) ↔ (fpp + nfp ≤ 8) := by omega
+      simp [this]
+  have e2 : (ngp == 0 || decide (gpc + ngp ≤ 6)) = (ngp == 0 || decide (gpp + ngp ≤ 6)) := by
+    by_cases hz : ngp = 0
+    · simp [hz]
+    · have : (gpc + ngp ≤ 6) ↔ (gpp + ngp ≤ 6) := by omega
+      simp [this]
+  rw [e1, e2]
+
+
+/-- tail of a straight sequence whose last action is `pure v` -/
+syntax "ret_tail" term : tactic
+macro_rules
+  | `(tactic| ret_tail $h) => `(tactic| repeat (first
+      | exact Ret_pure $h
+      | refine Ret_bind (Ret_any _) (fun _ _ => ?_)))
+
+theorem Sem_popEightbyte (f : Bool) (gp fp : Int) : Sem (popEightbyte f gp fp) 8 0 (-1) := by
+  unfold popEightbyte
+  cases f <;> simp only [Bool.false_eq_true, if_false, if_true] <;> sem
+
+theorem Ret_popEightbyte (f : Bool) (gp fp : Int) :
+    Ret (popEightbyte f gp fp) (fun gf => gf = (if f then (gp, fp + 1) else (gp + 1, fp))) := by
+  unfold popEightbyte
+  cases f <;> simp only [Bool.false_eq_true, if_false, if_true] <;> exact Ret_seq_pure rfl
+
+theorem struct_class (env : Env) (ty : Ty)
+    {gpc fpc gpp fpp : Int} {b : Bool} {gpc' fpc' k : Int} (he : Eqv gpc fpc gpp fpp) (hs1 : 1 ≤ ty.size)
+    (hcr : (if ty.size > 16 then (do
+        let sz ← alignTo ty.size 8
+        pure (true, gpc, fpc, sz.tdiv 8) : Except String _)
+      else do
+        let (fits, ngp, nfp) ← structInRegsE env ty gpc fpc
+        if fits then pure (false, gpc + ngp, fpc + nfp, 0)
+        else do
+          let sz ← alignTo ty.size 8
+          pure (true, gpc, fpc, sz.tdiv 8)) = .ok (b, gpc', fpc', k)) :
+    (k = if b then (ty.size + 8 - 1).tdiv 8 else 0) ∧
+    Sem (popStruct env ty gpp fpp) (8 * (if b then 0 else (ty.size + 8 - 1).tdiv 8)) 0
+      (-(if b then 0 else (ty.size + 8 - 1).tdiv 8)) ∧
+    Ret (popStruct env ty gpp fpp) (fun gf => Eqv gpc' fpc' gf.1 gf.2) := by
+  have hal : alignTo ty.size 8 = .ok ((ty.size + 8 - 1).tdiv 8 * 8) := alignTo8 _
+  have hd : ((ty.size + 8 - 1).tdiv 8 * 8).tdiv 8 = (ty.size + 8 - 1).tdiv 8 := by
+    rw [Int.mul_tdiv_cancel _ (by decide)]
+  unfold popStruct
+  by_cases hbig : ty.size > 16
+  · simp only [hbig, if_true, hal, bind, Except.bind, pure, Except.pure, hd, Except.ok.injEq, Prod.mk.injEq] at hcr
+    obtain ⟨rfl, rfl, rfl, rfl⟩ := hcr
+    simp only [hbig, if_true]
+    exact ⟨trivial, (Sem_pure _).cast (by omega) rfl (by omega), Ret_pure he⟩
+  · simp only [hbig, if_false] at hcr ⊢
+    cases hsr : structInRegsE env ty gpc fpc with
+    | error e => simp [hsr, bind, Except.bind] at hcr
+    | ok r =>
+      obtain ⟨fits, ngp, nfp⟩ := r
+      simp only [hsr, bind, Except.bind] at hcr
+      -- what struct_in_regs computed
+      unfold structInRegsE at hsr
+      cases hcls : structClsE env ty with
+      | error e => simp [hcls] at hsr
+      | ok c =>
+        obtain ⟨ngp0, nfp0⟩ := c
+        simp only [hcls, Except.ok.injEq, Prod.mk.injEq] at hsr
+        obtain ⟨hfits, rfl, rfl⟩ := hsr
+        obtain ⟨f1, hf1, hrest⟩ := structCls_ok hcls
+        have hn0 : 0 ≤ ngp0 ∧ 0 ≤ nfp0 := by
+          by_cases h8 : ty.size > 8
+          · simp only [h8, if_true] at hrest
+            obtain ⟨f2, _, e1, e2⟩ := hrest
+            subst e1 e2
+            cases f1 <;> cases f2 <;> simp
+          · simp only [h8, if_false] at hrest
+            obtain ⟨e1, e2⟩ := hrest
+            subst e1 e2
+            cases f1 <;> simp
+        have hfe := fits_eqv he hn0.1 hn0.2
+        -- the popping loop asks the same question with its own counters
+        have hsr' : structInRegs env ty gpp fpp = liftE (.ok (fits, ngp0, nfp0)) := by
+          unfold structInRegs structInRegsE
+          simp only [hcls, ← hfe, hfits]
+        rw [hsr']
+        show _ ∧ Sem (liftE (Except.ok (fits, ngp0, nfp0)) >>= _) _ _ _ ∧ Ret (liftE (Except.ok (fits, ngp0, nfp0)) >>= _) _
+        rw [M_liftE_ok_bind]
+        simp only
+        cases fits with
+        | false =>
+          simp only [Bool.false_eq_true, if_false, hal, hd, pure, Except.pure, Except.ok.injEq, Prod.mk.injEq] at hcr ⊢
+          obtain ⟨rfl, rfl, rfl, rfl⟩ := hcr
+          simp only [if_true]
+          exact ⟨trivial, (Sem_pure _).cast (by omega) rfl (by omega), Ret_pure he⟩
+        | true =>
+          simp only [if_true, pure, Except.pure, Except.ok.injEq, Prod.mk.injEq] at hcr
+          obtain ⟨rfl, rfl, rfl, rfl⟩ := hcr
+          simp only [Bool.false_eq_true, if_false, if_true]
+          refine ⟨trivial, ?_⟩
+          obtain ⟨h1, h2, h3, h4⟩ := he
+          have hfits' : fitsRegs gpc fpc ngp0 nfp0 = true := hfits
+          unfold fitsRegs FP_MAX GP_MAX at hfits'
+          simp only [Bool.and_eq_true, Bool.or_eq_true, beq_iff_eq, decide_eq_true_eq] at hfits'
+          unfold hasFlonum1 hasFlonum2
+          rw [hf1, M_liftE_ok_bind]
+          have s1 := Sem_popEightbyte f1 gpp fpp
+          have r1 := Ret_popEightbyte f1 gpp fpp
+          by_cases h8 : ty.size > 8
+          · simp only [h8, if_true] at hrest ⊢
+            obtain ⟨f2, hf2, e1, e2⟩ := hrest
+            subst e1 e2
+            rw [hf2]
+            have hS : (ty.size + 8 - 1).tdiv 8 = 2 := by
+              have : ty.size ≤ 16 := by omega
+              rw [Int.tdiv_eq_ediv_of_nonneg (by omega)]
+              omega
+            rw [hS]
+            constructor
+            · refine (Sem_bind s1 (fun gf => ?_)).cast (r := 8 + 8) (x := 0 + 0) (d := -1 + -1) (by omega) (by omega) (by omega)
+              rw [M_liftE_ok_bind]
+              exact Sem_popEightbyte f2 _ _
+            · refine Ret_bind r1 (fun gf hgf => ?_)
+              rw [M_liftE_ok_bind]
+              refine Ret_mono (Ret_popEightbyte f2 _ _) (fun gf2 hgf2 => ?_)
+              subst hgf hgf2
+              cases f1 <;> cases f2 <;> simp at hfits' ⊢ <;> exact ⟨by omega, by omega, by omega, by omega⟩
+          · simp only [h8, if_false] at hrest ⊢
+            obtain ⟨e1, e2⟩ := hrest
+            subst e1 e2
+            have hS : (ty.size + 8 - 1).tdiv 8 = 1 := by
+              rw [Int.tdiv_eq_ediv_of_nonneg (by omega)]
+              omega
+            rw [hS]
+            constructor
+            · refine (Sem_bind s1 (fun gf => Sem_pure gf)).cast (by omega) (by omega) (by omega)
+            · refine Ret_bind r1 (fun gf hgf => Ret_pure ?_)
+              subst hgf
+              cases f1 <;> simp at hfits' ⊢ <;> exact ⟨by omega, by omega, by omega, by omega⟩
 
 end ChibiVerif.Lemmas.C20
